@@ -59,6 +59,7 @@ struct ClientState {
     last_reply: String,
     emitted_at_last_recv: usize,
     recv_calls: usize,
+    silent_run: usize,   // consecutive receive attempts of the sender that got nothing
 }
 
 fn clone_packet(p: &Packet) -> Packet {
@@ -93,6 +94,8 @@ impl ClientPeer {
             }
             if let Packet::Data { block_num, data } = &sh.emitted[idx] {
                 if st.done {
+                    // the peer dallies: a retransmission after the end means its final ACK was lost; it repeats it
+                    reply = Some(((st.expected - 1) % 65536) as u16);
                     continue;
                 }
                 if *block_num == (st.expected % 65536) as u16 {
@@ -152,8 +155,12 @@ impl Socket for ClientPeer {
     }
     fn recv_with_size(&self, _size: usize) -> Result<Packet, Box<dyn Error>> {
         match self.step() {
-            Some(p) => Ok(p),
+            Some(p) => {
+                self.st.lock().unwrap().silent_run = 0;
+                Ok(p)
+            }
             None => {
+                self.st.lock().unwrap().silent_run += 1;
                 std::thread::sleep(TMO + Duration::from_millis(1));
                 Err("timeout".into())
             }
@@ -210,7 +217,7 @@ fn download(dir: &PathBuf, len: usize, ws: u16, rep: u8, fault: Fault, verdict: 
         sh: sh.clone(),
         st: Arc::new(Mutex::new(ClientState {
             seen: 0, expected: 1, in_window: 0, ws, got: Vec::new(), done: false, pending: VecDeque::new(), fault: fault.clone(),
-            replies: 0, emitted_cnt: 0, last_ack: None, last_reply: "start".into(), emitted_at_last_recv: 0, recv_calls: 0,
+            replies: 0, emitted_cnt: 0, last_ack: None, last_reply: "start".into(), emitted_at_last_recv: 0, recv_calls: 0, silent_run: 0,
         })),
     };
     let peer_state = peer.st.clone();
@@ -225,6 +232,10 @@ fn download(dir: &PathBuf, len: usize, ws: u16, rep: u8, fault: Fault, verdict: 
             verdict.violations.push(("C07", format!("{ctx}: the sender neither completed nor gave up within 25 s")));
             if label.contains("wrap") {
                 verdict.violations.push(("C15", format!("{ctx}: a download of more than 65535 blocks neither completed nor gave up within 25 s")));
+            }
+            if rep > 1 {
+                // C16: with a conformant peer that acknowledges every copy the transfer must still complete
+                verdict.violations.push(("C16", format!("{ctx}: in duplicate-packets mode the download did not complete within 25 s (the peer acknowledges every copy it receives)")));
             }
             return;
         }
@@ -299,9 +310,19 @@ fn download(dir: &PathBuf, len: usize, ws: u16, rep: u8, fault: Fault, verdict: 
     }
     // C04 / C07: with a conformant peer and a single fault the transfer must have delivered the whole file - to the PEER: what it
     // accepted in sequence (datagrams lost on the way do not count), not merely what the sender put on the wire
-    let (peer_got, peer_done) = { let st = peer_state.lock().unwrap(); (st.got.clone(), st.done) };
+    let (peer_got, peer_done, silent_run) = { let st = peer_state.lock().unwrap(); (st.got.clone(), st.done, st.silent_run) };
+    if silent_run > 0 {
+        // the sender's last receive attempts got nothing and then it ended: it gave up.  The peer is conformant, dallies, and the plan
+        // holds at most one fault, so fewer than the retry budget of consecutive attempts can have failed legitimately
+        verdict.violations.push(("C04", format!("{ctx}: the sender gave up (it ended after {silent_run} receive attempt(s) without an answer) although the peer \
+            answers every datagram it is owed an answer to (it holds {} of {} bytes)", peer_got.len(), len)));
+    }
     if peer_got != data || !peer_done {
         verdict.violations.push(("C04", format!("{ctx}: the sender ended but the peer holds {} of {} bytes (it {} the final block)", peer_got.len(), len, if peer_done { "has" } else { "never received" })));
+    }
+    if (peer_got != data || !peer_done || silent_run > 0) && label.contains("wrap") {
+        // C15: a transfer of more than 65535 blocks continues correctly across the wrap
+        verdict.violations.push(("C15", format!("{ctx}: a download of more than 65535 blocks did not complete (the peer holds {} of {} bytes)", peer_got.len(), len)));
     }
     if expected != nblocks + 1 || client_copy != data {
         verdict.violations.push(("C04", format!("{ctx}: transfer did not deliver the file (client has {} of {} blocks)", expected - 1, nblocks)));
